@@ -135,14 +135,27 @@ def run_ivf(ctx):
     models = [("Ivf_MC", "Ivf_MC"), ("Ivf_MC", "Ivf_Pts")] if quick else \
              [("Ivf_MC", "Ivf_MCt"), ("Ivf_MC", "Ivf_MC3"), ("Ivf_MC", "Ivf_Ptst")]
     mc = start_models(ctx, models, workers=4)
+    # 1b. frames around and beyond the reader's chunk limit (ivfreader.maxPreallocatedFrameSize, 1 MiB): exhaustive model of
+    #     every short stream with such a frame first / in the middle / last / alone; each behaviour is a replay vector
+    big_ctx = SubCtx(ctx, "big")
+    big_job = Job(lambda: vlib.tlc_model(big_ctx, "Ivf_MC", "Ivf_Big" if quick else "Ivf_Bigt", workers=1, timeout=400))
 
     # 2. vectors: behaviours of the same machine over the large alphabet, drawn by TLC's simulator
     nvec = 300 if quick else 10000
     vecs = sim_vectors(ctx, "Ivf_MC", "Ivf_Sim" if quick else "Ivf_Simt", nvec, 2 if quick else 8)
-    for i, v in enumerate(vecs):
-        v["id"] = i
     if not vecs:
         raise vlib.NoVerdict("the simulation produced no vector")
+    big = big_job.result()
+    ctx.cov["tlc_runs"] += big_ctx.cov["tlc_runs"]
+    ctx.cov["states"] += big.distinct
+    ctx.cov["transitions"] += big.generated
+    bigvecs = [v[0] for v in big.tag("VERIF_VEC")]
+    if not bigvecs:
+        raise vlib.NoVerdict("Ivf_Big produced no vector")
+    ctx.cov["chunk_limit_vectors"] = len(bigvecs)
+    vecs += bigvecs
+    for i, v in enumerate(vecs):
+        v["id"] = i
     infile = vlib.write_json(os.path.join(ctx.work, "vectors.json"), vecs)
     trace = os.path.join(ctx.work, "trace.ndjson")
 
@@ -160,6 +173,7 @@ def run_ivf(ctx):
     frames = [l for l in lines if l["ev"] == "frame"]
     ends = [l for l in lines if l["ev"] == "end"]
     prem = [l for l in ends if l["premise"]]
+    byk = {l["t"]: l["nexp"] for l in ends}
     pc = ctx.cov["predicates"]
     for need in ("FrameReadBack", "CountReadBack", "HeaderFields", "HeaderFieldsInFile", "CountWhenSeekable", "PtsFormula"):
         if not pc.get(need):
@@ -170,6 +184,8 @@ def run_ivf(ctx):
     ctx.cov["frames_read_back"] = sum(1 for l in frames if l["hg"])
     ctx.cov["rtp_packets_written"] = sum(l["packets"] for l in ends)
     ctx.cov["constructor_errors"] = sum(1 for l in lines if l["ev"] == "ctor_err")
+    ctx.cov["frames_beyond_reader_chunk_limit_followed_by_frames"] = sum(
+        1 for l in frames if l["premise"] and l["exp"]["n"] > (1 << 20) and l["k"] < byk.get(l["t"], 0))
     ctx.cov["timestamp_wraps_seen"] = sum(1 for l in frames if "wrap=true" in l["sig"])
     # generative model vs code, outside any verdict: number of frames the model predicted vs frames in the file
     ctx.cov["model_drift_streams"] = sum(1 for l in ends if l["model_frames"] != l["nfile"])
